@@ -14,7 +14,7 @@ import translate_cotree
 COQ_FILES = ["gen/Facts_COTree.v", "Rows/COTree.v", "Rows/SparseTree.v", "Rows/COTreeSpec.v",
              "Rows/Abs.v", "Rows/Dense.v", "Rows/Sparse.v", "Rows/Expr.v", "Rows/RowsFacts.v"]
 OPTIONAL_COQ = ["Rows/COTreeBase.v", "Rows/COTreeSearch.v", "Rows/COTreeStatic.v", "Rows/COTreeHint.v",
-                "Rows/COTreeDens.v", "Rows/COTreeUpdate.v",
+                "Rows/COTreeDens.v", "Rows/COTreeIter.v", "Rows/COTreeUpdate.v", "Rows/COTreeEraseLb.v",
                 "Rows/DenseProofs.v", "Rows/SparseProofs.v", "Rows/ExprProofs.v", "Rows/COTreeMain.v"]
 WORK = os.path.join(common.BUILD, "c16-work")
 
